@@ -18,6 +18,9 @@ func init() {
 	reg("CLIENT", &cmdSpec{arity: -2, fn: cmdClient})
 	reg("READONLY", &cmdSpec{arity: 1, fn: cmdReadonly})
 	reg("READWRITE", &cmdSpec{arity: 1, fn: func(w *World, sc *SrvConn, e *Exec, a []string) result {
+		if !sc.Node.ClusterEnabled {
+			return rv(resp.Err("ERR This instance has cluster support disabled"))
+		}
 		sc.Sess.ReadOnly = false
 		return rv(resp.OK())
 	}})
@@ -319,20 +322,20 @@ func cmdInfo(w *World, sc *SrvConn, e *Exec, a []string) result {
 	if n.AZ != "" {
 		sb.WriteString("availability_zone:" + n.AZ + "\r\n")
 	}
-	sb.WriteString("# Replication\r\nrole:" + n.Role + "\r\n")
+	if w.Sentinel.IsSentinel(n.Addr) {
+		sb.WriteString(w.Sentinel.infoText(n.Addr))
+		return rv(resp.Bulk(sb.String()))
+	}
+	sb.WriteString(replInfo(w, n))
 	return rv(resp.Bulk(sb.String()))
 }
 
 func cmdRole(w *World, sc *SrvConn, e *Exec, a []string) result {
 	n := sc.Node
-	if w.Sentinel != nil && w.Sentinel.IsSentinel(n.Addr) {
-		return rv(resp.Arr(resp.Bulk("sentinel"), resp.Arr()))
+	if w.Sentinel.IsSentinel(n.Addr) {
+		return rv(w.Sentinel.roleReply(n.Addr))
 	}
-	if n.Role == "slave" {
-		host, port := splitAddr(n.MasterOf)
-		return rv(resp.Arr(resp.Bulk("slave"), resp.Bulk(host), resp.Int(port), resp.Bulk("connected"), resp.Int(0)))
-	}
-	return rv(resp.Arr(resp.Bulk("master"), resp.Int(0), resp.Arr()))
+	return rv(roleReply(w, n))
 }
 
 func splitAddr(a string) (string, int64) {
